@@ -652,6 +652,31 @@ class Act:
         return snap_bytes(snapshot(self.result))
 
 
+class World:
+    """Shared context of several activations: nested runs and objective rewrites."""
+
+    def __init__(self, rewriter=None):
+        self.nested = []
+        self.rewriter = rewriter
+
+    def run_nested(self, outer, fault):
+        spec = fault["plan"]
+        problem = build_problem(spec["problem"])
+        inner = Act(
+            problem,
+            spec["cfg"],
+            aid=100 + len(self.nested),
+            sched=outer.sched,
+            tid=outer.tid,
+            freeze_inputs=outer.freeze_inputs,
+        )
+        inner.run()
+        self.nested.append(inner)
+
+    def rewrite(self, act, j, rec, x, f0, f0_old, grad, X, G):
+        return self.rewriter(act, j, rec, x, f0, f0_old, grad, X, G)
+
+
 def run_act(problem, cfg, **kw) -> Act:
     return Act(problem, cfg, **kw).run()
 
